@@ -170,7 +170,8 @@ class Run:
             self.say(f"KNOWN-FINDING: property={self.pid} {f.key} :: {f.message}")
         vlines = []
         if getattr(self, "no_evidence", False):
-            replay_dir = os.path.join("/tmp", "gbsa-replay-%d" % os.getpid())
+            # scratch runs (self-test, seed matrix): keep replay files inside the scratch copy, which the caller removes
+            replay_dir = os.path.join(getattr(self, "scratch_repo", None) or "/tmp", ".gbsa-replay-%d" % os.getpid())
         if unlisted:
             os.makedirs(replay_dir, exist_ok=True)
         for k, f in enumerate(unlisted):
